@@ -6,6 +6,7 @@ import (
 	"os"
 	"path/filepath"
 	"sort"
+	"strings"
 
 	"github.com/alecthomas/participle/v2/lexer"
 	"github.com/alecthomas/participle/v2/lexer/verifshim"
@@ -139,6 +140,8 @@ func unitsRules() lexer.Rules {
 		{Name: "Int", Pattern: `\d+`},
 		{Name: "Quoted", Pattern: `'(?:\\.|[^'\\])*'`},
 		{Name: "DString", Pattern: `"(?:[^"\\]+|\\.)*"`},
+		{Name: "OptStar", Pattern: `x(?:a?)*y`},
+		{Name: "List", Pattern: `\[(?:\d+|,|)*\]`},
 		{Name: "Tag", Pattern: `</?[a-z]+(?:\s[a-z]+)*>`},
 		{Name: "Ident", Pattern: `[a-zA-Z_\p{L}][\w-]*`},
 		{Name: "Arrow", Pattern: `->|=>|<-|<=>`},
@@ -259,6 +262,29 @@ func fenceRules() lexer.Rules {
 	}
 }
 
+// backrefReturnRules: a back-reference state that is left through Return() into a parent state
+// which has a back-reference rule of its own.
+func backrefReturnRules() lexer.Rules {
+	return lexer.Rules{
+		"Root": {
+			{Name: "Start", Pattern: `<<(\w+)\b`, Action: lexer.Push("Doc")},
+			{Name: "Word", Pattern: `\w+`},
+			{Name: "space", Pattern: `\s+`},
+		},
+		"Doc": {
+			{Name: "space", Pattern: `\s+`},
+			{Name: "Open", Pattern: `<(\w+)>`, Action: lexer.Push("Tag")},
+			{Name: "Stray", Pattern: `[<>/]`},
+			{Name: "End", Pattern: `\b\1\b`, Action: lexer.Pop()},
+			{Name: "Word", Pattern: `\w+`},
+		},
+		"Tag": {
+			{Name: "Close", Pattern: `</\1>`},
+			lexer.Return(),
+		},
+	}
+}
+
 func mustRules(r lexer.Rules) lexer.Definition {
 	d, err := lexer.New(r)
 	if err != nil {
@@ -276,11 +302,11 @@ var iniSimpleRules = []lexer.SimpleRule{
 	{Name: "whitespace", Pattern: `\s+`},
 }
 
-var lexDefs = append(append([]*lexDef{}, coreLexDefs...), exampleLexDefs...)
+var lexDefs = append(append(append([]*lexDef{}, coreLexDefs...), exampleLexDefs...), exampleLexDefs2...)
 
 var coreLexDefs = []*lexDef{
 	{name: "heredoc", rules: heredocRules, delims: true, build: func() lexer.Definition { return mustRules(heredocRules()) },
-		corpus: []string{"\n\t<<{D0}\n\thello world\n\t{D0}\n", "x = \"s\"; # c\n<<{D0} a b c {D0};\n<<{D1}\n  {D0} words über {D2}\n{D1}\nlast = \"q\\\"q\"\n", "<<{D0} a <<{D1} b {D0} c", ""}},
+		corpus: []string{"\n\t<<{D0}\n\thello world\n\t{D0}\n", "x = \"s\"; # c\n<<{D0} a b c {D0};\n<<{D1}\n  {D0} words über {D2}\n{D1}\nlast = \"q\\\"q\"\n", "<<{D0} a <<{D1} b {D0} c", "a = b\n" + strings.Repeat("// r\n", 300) + "c = d", ""}},
 	{name: "conformance", rules: conformanceRules, genName: "Conformance", build: func() lexer.Definition { return mustRules(conformanceRules()) },
 		corpus: []string{`EXPRTEST:"${"Hello ${name + "!"}"}"`, `EXPRTEST:"${user.name} and \"${a.b.c * 2}\" ünï"`, "LITTEST:SELECT ONE FROM tbl WHERE ONEx LIKE y",
 			"CITEST:select AbC From wHeRe abcd like", "WBTEST:abc xyz/90 0 abcx 901 xyz", `EXPRTEST:"${"Hello \`, `EXPRTEST:"a\`, ""}},
@@ -299,13 +325,15 @@ var coreLexDefs = []*lexDef{
 	{name: "nullable-actions", rules: nullableActionRules, genName: "NullableActions", build: func() lexer.Definition { return mustRules(nullableActionRules()) },
 		corpus: []string{"a (b c) d", "a ( b", "a ) b", "(a (b)) !", "a $ b", ""}},
 	{name: "units", rules: unitsRules, genName: "Units", build: func() lexer.Definition { return mustRules(unitsRules()) },
-		corpus: []string{"10px 12 3.5em 7% 1.5e-3 2rem", "select a-b FROM 'it\\'s' where x<=>y -> z", "<div class> text </div> a..b a...b \\n \\", "x:y z: ; comment\nünï 'open", "10p 1.e 1.5e+ <a  'q\\", "#!/bin/sh -e\n$Émile $école $STRASSE $x @ @@ 0x1F 0Xabcde 0x", "\"\" \"a\\\"b\" \"ünï\\n\" \"open", ""}},
+		corpus: []string{"10px 12 3.5em 7% 1.5e-3 2rem", "select a-b FROM 'it\\'s' where x<=>y -> z", "<div class> text </div> a..b a...b \\n \\", "x:y z: ; comment\nünï 'open", "10p 1.e 1.5e+ <a  'q\\", "#!/bin/sh -e\n$Émile $école $STRASSE $x @ @@ 0x1F 0Xabcde 0x", "\"\" \"a\\\"b\" \"ünï\\n\" \"open", "xaay xy xby [1,2] [] [,3,] [4 5]", ""}},
 	{name: "convoluted-backref", rules: convolutedBackrefRules, build: func() lexer.Definition { return mustRules(convolutedBackrefRules()) },
 		corpus: []string{`\\1 \\\1 ; x`, `<ab|cd> w ab x cd y`, `<a|b> a a b <c|c> c`, `\\1 \\1`, `<a|`, ""}},
 	{name: "nested-include", rules: nestedIncludeRules, genName: "NestedInclude", build: func() lexer.Definition { return mustRules(nestedIncludeRules()) },
 		corpus: []string{"a + 1 { b * 'c' } - 2", "{ { x } }", "a ? b", "{ 'open", "}", ""}},
 	{name: "eof-named-rule", rules: eofNamedRules, genName: "EofNamed", build: func() lexer.Definition { return mustRules(eofNamedRules()) },
 		corpus: []string{"a <<EOF b c EOF d e", "<<EOF x", "EOF <<EOF EOF EOF", ""}},
+	{name: "backref-return", rules: backrefReturnRules, build: func() lexer.Definition { return mustRules(backrefReturnRules()) },
+		corpus: []string{"<<END <b></b> END", "a <<X w <i></i> <j> y X b", "<<E <b></c> E", "<<E <b>", ""}},
 	{name: "fence", rules: fenceRules, build: func() lexer.Definition { return mustRules(fenceRules()) },
 		corpus: []string{"a *** code * here *** b", "... x . y ... ++ p + q ++", "$$ 1 $ 2 $$ [[ a [ b [[ (? x ( y (?", "\\\\ back \\ slash \\\\ done", "**** four **** *** open", ""}},
 	{name: "optgroup", rules: optGroupRules, build: func() lexer.Definition { return mustRules(optGroupRules()) },
